@@ -288,6 +288,7 @@ def rt_run(build, workdir, svcs, timing, history, eof_wait=True):
     k = 0
     ok, why = True, ""
     crashed = False
+    first = 1
 
     def window_check(t_send, t_ack):
         nonlocal ok, why
@@ -299,7 +300,12 @@ def rt_run(build, workdir, svcs, timing, history, eof_wait=True):
             why = "step of model time %d sent %+.3f acked %+.3f outside its window of %.3f s" % (
                 k, t_send - lo, t_ack - lo, timing.w)
 
-    for item in history:
+    cur = 0
+    for it, item in enumerate(history):
+        for r in recs[first:]:
+            r.setdefault("it", it - 1)
+        first = len(recs)
+        cur = it
         if item["e"] == "Tick":
             k += 1
             if t0 is None:
@@ -349,6 +355,8 @@ def rt_run(build, workdir, svcs, timing, history, eof_wait=True):
             window_check(ts, ta)
         if not ok:
             break
+    for r in recs[first:]:
+        r.setdefault("it", cur)
     if crashed or not ok:
         rc, san, ub = d.close(wait=5)
         if crashed:
@@ -662,6 +670,9 @@ class Reporter:
 
     # -- drift ---------------------------------------------------------------------------------------------
     def drift(self, kind, what, detail):
+        if (kind, what) in self.seen:
+            return
+        self.seen.add((kind, what))
         self.ndrift[kind] += 1
         if self.ndrift[kind] <= 3:
             self.ctx.drift(what, detail)
@@ -737,11 +748,12 @@ class Reporter:
         if key in self.seen:
             return
         self.seen.add(key)
-        still = self._again(upto, mine, svcs, timeout_on, False)
+        # from here on the history is self-contained: nothing is appended to it (no implicit withdrawal)
+        still = self._again(upto, mine, svcs, timeout_on, True)
         if not still:
             ctx.note("violation of %s did not repeat on a fresh daemon: [%s] (not reported)" % (sorted(mine), ev_sig(upto)[-300:]))
             return
-        small = shrink(ctx, upto, still, svcs, timeout_on, False)
+        small = shrink(ctx, upto, still, svcs, timeout_on, True)
         conj = "+".join(sorted(still))
         kind = san_kind(san)
         self._class_count(mine, kind, "step")
@@ -750,7 +762,7 @@ class Reporter:
         ctx.violation("contract conjunct(s) %s violated by the real daemon on history [%s] (%s; reduced from %d events)"
                       % (sorted(still), ev_sig(small), source, len(upto)), conj, sig,
                       {"kind": "c10-hook", "table": table, "svcs": svcs, "timeout_on": timeout_on, "events": small,
-                       "leave_live": False, "observed": rec, "sanitizer": san[:1500]})
+                       "leave_live": True, "observed": rec, "sanitizer": san[:1500]})
 
     def _hook_eof(self, source, rec, mine, proc, behaviours, tails, svcs, timeout_on, table):
         ctx = self.ctx
@@ -825,10 +837,12 @@ class Reporter:
             if key in self.seen:
                 continue
             self.seen.add(key)
+            # the history up to the item whose record failed (everything when it is the end of input)
+            hist = histories[hi] if rec["e"] == "Eof" else histories[hi][:rec.get("it", len(histories[hi])) + 1]
             # must repeat twice on fresh daemons (timing-dependent)
             reps = 0
             for attempt in range(2):
-                o2 = rt_replay(ctx, [histories[hi]], svcs, timing, tag="rtagain%d" % attempt, nthreads=1)
+                o2 = rt_replay(ctx, [hist], svcs, timing, tag="rtagain%d" % attempt, nthreads=1)
                 if o2["inconclusive"]:
                     break
                 v2, _, _, _ = validate(ctx, o2["trace"], o2["lines"])
@@ -836,15 +850,15 @@ class Reporter:
                     reps += 1
             if reps < 2:
                 ctx.note("real-timer finding %s did not repeat twice on fresh daemons: [%s] (not reported)"
-                         % (sorted(mine), ev_sig(histories[hi])[-300:]))
+                         % (sorted(mine), ev_sig(hist)[-300:]))
                 continue
             conj_s = "+".join(sorted(mine))
             kind = san_kind(rec.get("san", ""))
             self._class_count(mine, kind, "rt")
-            sig = "%s%s real timers: %s" % (conj_s, (" (" + kind + ")") if kind else "", ev_sig(histories[hi]))
+            sig = "%s%s real timers: %s" % (conj_s, (" (" + kind + ")") if kind else "", ev_sig(hist))
             self.nreports += 1
             ctx.violation("real timers (timeout %d s, tick %.2f s): contract conjunct(s) %s violated at record %d of timed "
-                          "history [%s] (%s)" % (timing.seconds, timing.tau, sorted(mine), si, ev_sig(histories[hi]), source),
+                          "history [%s] (%s)" % (timing.seconds, timing.tau, sorted(mine), si, ev_sig(hist), source),
                           conj_s, sig,
-                          {"kind": "c10-rt", "svcs": svcs, "seconds": timing.seconds, "history": histories[hi],
+                          {"kind": "c10-rt", "svcs": svcs, "seconds": timing.seconds, "history": hist,
                            "failing_record": si, "observed": rec})
